@@ -20,6 +20,8 @@ import MajoranaVerif.Proofs.Mvp4ValueIndep
 import MajoranaVerif.Proofs.Mvp5ValueIndep
 import MajoranaVerif.Proofs.Mvp60
 import MajoranaVerif.Proofs.Mvp60Witness
+import MajoranaVerif.Proofs.Mvp61
+import MajoranaVerif.Proofs.Mvp61Witness2
 open GoInt Model.Seq Proofs.Seq
 
 namespace Props.C12
@@ -595,5 +597,142 @@ example : Proofs.Mvp60.Clean (Model.Mvp60.run Proofs.Mvp60Witness.dropApp (Proof
     (Model.Mvp60.run Proofs.Mvp60Witness.dropApp (Proofs.Mvp60Witness.ctxS0 64) 2 2 1000).final.executed = 1 := by
   obtain ⟨h1, _, h2, _⟩ := Proofs.Mvp60Witness.obs_eq Proofs.Mvp60Witness.drop_p2
   exact ⟨by rw [h1]; trivial, h2⟩
+
+end Props.C12
+
+/-! ## MVP-6.1 (package M61): lower bound, forwarding, and the known wrong results as theorems
+
+`Model.Mvp61` is the cycle-accurate model of `proc/mvp6-1` (MVP-6.0 plus operand forwarding; `eu` execute units, `wu`
+write units; one `cycle` per `ctx.VerifTick()`), tied to the Go machine by exact agreement of status, cycle count, tick
+count and final registers and memory on every generated case (fields `m61pK` of the driver, which evaluates
+`Model.Mvp61.run` itself) — inside and outside the finding regions: the model reproduces the wrong results. -/
+namespace Props.C12
+
+/-- **C12 lower bound, MVP-6.1.**  A machine with `eu` execute units executes at most `eu` instructions per tick
+(`executed` counts the calls of an instruction's `Run`, wrong-path instructions included), and the returned cycle count
+is at least `executed / eu` — or it is 0: an error of an instruction inside the flush path's loop makes `Run` return
+`0, nil` (`cpu.go`: `if resp.err != nil { return 0, nil }`).  Holds for every run (halted, out of fuel, Go panic).
+Unlike MVP-6.0, `ticks ≤ cycles` is false here: the ticks of the write units' drain loops inside the flush path do not
+advance the cycle counter (no instruction runs in them). -/
+theorem mvp61_lower_bound (app : App) (ctx : Model.Context) (eu wu fuel : Nat) :
+    (Model.Mvp61.run app ctx eu wu fuel).final.executed ≤ eu * (Model.Mvp61.run app ctx eu wu fuel).ticks ∧
+    ((Model.Mvp61.run app ctx eu wu fuel).final.cycles = 0 ∨
+      ((Model.Mvp61.run app ctx eu wu fuel).final.executed : Int) ≤ eu * (Model.Mvp61.run app ctx eu wu fuel).final.cycles) :=
+  Proofs.Mvp61.run_executed_le app ctx eu wu fuel
+
+/-- Non-vacuity: a run with a positive cycle count and instructions executed, close to the bound's shape — the
+two-unit run of `Proofs.Mvp61Witness.fwdApp` executes 4 instructions in 318 cycles -/
+example : (Model.Mvp61.run Proofs.Mvp61Witness.fwdApp (Proofs.Mvp61Witness.ctx0 64) 2 2 1000).final.cycles = 318 ∧
+    (Model.Mvp61.run Proofs.Mvp61Witness.fwdApp (Proofs.Mvp61Witness.ctx0 64) 2 2 1000).final.executed = 4 := by
+  obtain ⟨_, a, _, b, _⟩ := Proofs.Mvp61Witness.obs_eq Proofs.Mvp61Witness.fwd_p2
+  exact ⟨a, b⟩
+
+/-- **KF-ooo-shadow as a theorem on the tied model.**  On the pinned witness
+`lw t5, 104(zero); bnez t5, l3; auipc a4, 232414541; l3:` (memory all `0x11`) the unpipelined machine takes the branch
+and leaves `a4 = 0`; so does MVP-6.1 with two units; with THREE units the run ends normally (`offEnd`) with all three
+instructions executed and `a4 = 0xa5d4d008`: the `auipc` in the shadow of the slow branch is committed. -/
+theorem mvp61_commits_shadow :
+    (Model.Seq.runMvp1 Proofs.Mvp61Witness.shadowApp ⟨Proofs.Mvp61Witness.ctx0 128, 0⟩ 10).final.ctx.Registers.get1 14 = 0#32 ∧
+    (Model.Mvp61.run Proofs.Mvp61Witness.shadowApp (Proofs.Mvp61Witness.ctx0 128) 2 2 1000).final.ctx.Registers.get1 14 = 0#32 ∧
+    (Model.Mvp61.run Proofs.Mvp61Witness.shadowApp (Proofs.Mvp61Witness.ctx0 128) 3 3 1000).halt = some .offEnd ∧
+    (Model.Mvp61.run Proofs.Mvp61Witness.shadowApp (Proofs.Mvp61Witness.ctx0 128) 3 3 1000).final.executed = 3 ∧
+    (Model.Mvp61.run Proofs.Mvp61Witness.shadowApp (Proofs.Mvp61Witness.ctx0 128) 3 3 1000).final.ctx.Registers.get1 30 = 0x11111111#32 ∧
+    (Model.Mvp61.run Proofs.Mvp61Witness.shadowApp (Proofs.Mvp61Witness.ctx0 128) 3 3 1000).final.ctx.Registers.get1 14 = 0xa5d4d008#32 := by
+  obtain ⟨_, a, _⟩ := Proofs.Mvp61Witness.obsSeq_eq Proofs.Mvp61Witness.shadow_seq
+  obtain ⟨_, _, _, _, _, b, _⟩ := Proofs.Mvp61Witness.obs_eq Proofs.Mvp61Witness.shadow_p2
+  obtain ⟨c, _, _, d, _, e, f, _⟩ := Proofs.Mvp61Witness.obs_eq Proofs.Mvp61Witness.shadow_p3
+  exact ⟨a, b, c, d, f, e⟩
+
+/-- **KF-ooo-mem as a theorem on the tied model.**  `lb t2, 7(zero); sh zero, 4, zero` (memory all `0x11`): the
+unpipelined machine and MVP-6.1 with one unit store the half word (`Proofs.Mvp61Witness.stored`); with two units the run
+ends normally, both instructions executed, and the first eight bytes of memory are unchanged: the store is lost. -/
+theorem mvp61_loses_store :
+    (Model.Seq.runMvp1 Proofs.Mvp61Witness.memApp ⟨Proofs.Mvp61Witness.ctx0 128, 0⟩ 10).final.ctx.Memory.take 8 = Proofs.Mvp61Witness.stored ∧
+    (Model.Mvp61.run Proofs.Mvp61Witness.memApp (Proofs.Mvp61Witness.ctx0 128) 1 1 1000).final.ctx.Memory.take 8 = Proofs.Mvp61Witness.stored ∧
+    (Model.Mvp61.run Proofs.Mvp61Witness.memApp (Proofs.Mvp61Witness.ctx0 128) 2 2 1000).halt = some .offEnd ∧
+    (Model.Mvp61.run Proofs.Mvp61Witness.memApp (Proofs.Mvp61Witness.ctx0 128) 2 2 1000).final.executed = 2 ∧
+    (Model.Mvp61.run Proofs.Mvp61Witness.memApp (Proofs.Mvp61Witness.ctx0 128) 2 2 1000).final.ctx.Memory.take 8 = Proofs.Mvp61Witness.m11 := by
+  obtain ⟨_, _, _, a⟩ := Proofs.Mvp61Witness.obsSeq_eq Proofs.Mvp61Witness.mem_seq
+  obtain ⟨_, _, _, _, _, _, _, b⟩ := Proofs.Mvp61Witness.obs_eq Proofs.Mvp61Witness.mem_p1
+  obtain ⟨c, _, _, d, _, _, _, e⟩ := Proofs.Mvp61Witness.obs_eq Proofs.Mvp61Witness.mem_p2
+  exact ⟨a, b, c, d, e⟩
+
+/-- **KF-ooo-2branch as a theorem on the tied model** (the finding's witness is pinned on MVP-6.2; the same program goes
+wrong on MVP-6.1 with two units).  The loop of `Proofs.Mvp61Witness.twoApp` runs four rounds on the unpipelined machine
+(`s10 = 0`) and on MVP-6.1 with three units; with two units the run ends normally after 12 executed instructions with
+`s10 = 2`: the `ble` behind the loop branch took effect while the loop branch was still waiting. -/
+theorem mvp61_second_branch_wins :
+    (Model.Seq.runMvp1 Proofs.Mvp61Witness.twoApp ⟨Proofs.Mvp61Witness.ctx0 256, 0⟩ 100).final.ctx.Registers.get1 26 = 0#32 ∧
+    (Model.Mvp61.run Proofs.Mvp61Witness.twoApp (Proofs.Mvp61Witness.ctx0 256) 3 3 1500).final.ctx.Registers.get1 26 = 0#32 ∧
+    (Model.Mvp61.run Proofs.Mvp61Witness.twoApp (Proofs.Mvp61Witness.ctx0 256) 2 2 1500).halt = some .offEnd ∧
+    (Model.Mvp61.run Proofs.Mvp61Witness.twoApp (Proofs.Mvp61Witness.ctx0 256) 2 2 1500).final.executed = 12 ∧
+    (Model.Mvp61.run Proofs.Mvp61Witness.twoApp (Proofs.Mvp61Witness.ctx0 256) 2 2 1500).final.ctx.Registers.get1 26 = 2#32 := by
+  obtain ⟨_, a, _⟩ := Proofs.Mvp61Witness.obsSeq_eq Proofs.Mvp61Witness.two_seq
+  obtain ⟨_, _, _, _, _, b, _⟩ := Proofs.Mvp61Witness.obs_eq Proofs.Mvp61Witness.two_p3
+  obtain ⟨c, _, _, d, _, e, _⟩ := Proofs.Mvp61Witness.obs_eq Proofs.Mvp61Witness.two_p2
+  exact ⟨a, b, c, d, e⟩
+
+/-- **MVP-6.0's lost load (KF-ooo-flush-load) does not happen on MVP-6.1.**  On the programs of
+`Props.C01.mvp60_flush_drops_older_load` and `Props.C07.mvp60_deadlock_after_cancelled_load` (`s0 = 1`, memory all
+`0x11`) MVP-6.1 with two units ends normally with the loaded values: its flush path lets the busy units finish first.
+With three units the wrong-path `addi a3, zero, 5` is executed (three `Run`s) but not committed (`a3 = 0`). -/
+theorem mvp61_keeps_older_load :
+    (Model.Mvp61.run Proofs.Mvp61Witness.dropApp (Proofs.Mvp61Witness.ctxS0 64) 2 2 1000).halt = some .offEnd ∧
+    (Model.Mvp61.run Proofs.Mvp61Witness.dropApp (Proofs.Mvp61Witness.ctxS0 64) 2 2 1000).final.ctx.Registers.get1 11 = 0x11#32 ∧
+    (Model.Mvp61.run Proofs.Mvp61Witness.dropApp (Proofs.Mvp61Witness.ctxS0 64) 3 3 1000).final.executed = 3 ∧
+    (Model.Mvp61.run Proofs.Mvp61Witness.dropApp (Proofs.Mvp61Witness.ctxS0 64) 3 3 1000).final.ctx.Registers.get1 11 = 0x11#32 ∧
+    (Model.Mvp61.run Proofs.Mvp61Witness.dropApp (Proofs.Mvp61Witness.ctxS0 64) 3 3 1000).final.ctx.Registers.get1 13 = 0#32 ∧
+    (Model.Mvp61.run Proofs.Mvp61Witness.deadApp (Proofs.Mvp61Witness.ctxS0 64) 2 2 1000).halt = some .offEnd ∧
+    (Model.Mvp61.run Proofs.Mvp61Witness.deadApp (Proofs.Mvp61Witness.ctxS0 64) 2 2 1000).final.ctx.Registers.get1 12 = 0x11#32 := by
+  obtain ⟨a, _, _, _, _, b, _⟩ := Proofs.Mvp61Witness.obs_eq Proofs.Mvp61Witness.drop_p2
+  obtain ⟨_, _, _, c, _, d, e, _⟩ := Proofs.Mvp61Witness.obs_eq Proofs.Mvp61Witness.drop_p3
+  obtain ⟨f, _, _, _, _, _, g, _⟩ := Proofs.Mvp61Witness.obs_eq Proofs.Mvp61Witness.dead_p2
+  exact ⟨a, b, c, d, e, f, g⟩
+
+/-- **forwarding, producer side (the C04 clause for the forwarded operand, first half).**  An execute unit that runs an
+instruction whose runner carries a forwarding channel `ch` (set by the control unit when it pushed the consumer), and
+whose execution `e` is neither a return nor a memory change, queues `e` for write-back and sends EXACTLY
+`e.RegisterValue` on `ch`; the register file is untouched. -/
+theorem mvp61_forwarding_sends_result {app : App} {s s' : Model.Mvp61.State} {i : Nat} {eu : Model.Mvp61.ExecUnit}
+    {r : Model.Mvp61.Runner} {c : Int} {out : Model.Mvp61.EuOut} {ch : Nat} {e : Gen.Execution}
+    (hf : r.forwarder = some ch)
+    (he : (Model.Mvp61.instrOf s r).run s.ctx app.labels r.pc eu.memory 0#32 = .ok e)
+    (hR : e.Return = false) (hM : e.MemoryChange = false)
+    (h : Model.Mvp61.euRun app s i eu r c = .ok (s', out)) :
+    out = .none ∧ s'.chans = s.chans ++ [(ch, e.RegisterValue)] ∧ s'.ctx = s.ctx ∧
+    s'.writeBus = s.writeBus.add { seq := r.seq, execution := e, itype := r.instr.instructionType,
+                                   writeRegisters := r.instr.writeRegisters,
+                                   readRegisters := r.instr.readRegisters } c :=
+  Proofs.Mvp61.euRun_sends_result hf he hR hM h
+
+/-- **forwarding, consumer side (second half).**  A value sent on a fresh channel is what the receiver finds; a unit
+whose runner waits on `ch`, once `v` is there, continues in the same cycle with the forward slot of its instruction set
+to `{fwdReg ↦ v}` — `Run` and `MemoryRead` are called on `r.instr.setForward {Register := r.fwdReg, Value := v}` — and
+the generated `registerRead` of `fwdReg` under that slot IS `v`, whatever the register file holds. -/
+theorem mvp61_forwarding_delivers {app : App} {s : Model.Mvp61.State} {i : Nat} {eu : Model.Mvp61.ExecUnit} {r : Model.Mvp61.Runner}
+    {c : Int} {ch : Nat} {v : Word} (l : List (Nat × Word)) (hfresh : Model.Mvp61.chanGet l ch = none)
+    (hs : s.chans = l ++ [(ch, v)]) (hw : s.writeBus.canAdd = true) (hr : r.receiver = some ch) :
+    (∃ s1 eu1 r1, Model.Mvp61.euPrepare app s i eu r c = Model.Mvp61.euAfterReceive app s1 i eu1 r1 c ∧
+      s1.ctx = s.ctx ∧ r1.instr = r.instr ∧ r1.pc = r.pc ∧ r1.receiver = none ∧ Model.Mvp61.chanGet s1.chans ch = none ∧
+      (∀ s2 : Model.Mvp61.State, s2.fwds = s1.fwds →
+        Model.Mvp61.instrOf s2 r1 = r.instr.setForward { Register := r.fwdReg, Value := v })) ∧
+    (∀ (cx : Model.Context) (seq : Word), Gen.registerRead cx { Register := r.fwdReg, Value := v } r.fwdReg seq = v) :=
+  ⟨Proofs.Mvp61.euPrepare_receives hw hr (by rw [hs]; exact Proofs.Mvp61.chanGet_append l ch v hfresh),
+   fun cx seq => Proofs.Mvp61.registerRead_forwarded cx r.fwdReg v seq⟩
+
+/-- Forwarding at work, on the tied model: `li t0, 7; addi t1, t0, 1; addi t2, t1, 2; ret` — two operands are forwarded
+(with one unit and with two), and the results are those of the unpipelined machine (`t1 = 8`, `t2 = 10`) -/
+theorem mvp61_forwarding_witness :
+    (Model.Seq.runMvp1 Proofs.Mvp61Witness.fwdApp ⟨Proofs.Mvp61Witness.ctx0 64, 0⟩ 10).final.ctx.Registers.get1 7 = 10#32 ∧
+    (Model.Mvp61.run Proofs.Mvp61Witness.fwdApp (Proofs.Mvp61Witness.ctx0 64) 1 1 1000).final.forwarded = 2 ∧
+    (Model.Mvp61.run Proofs.Mvp61Witness.fwdApp (Proofs.Mvp61Witness.ctx0 64) 1 1 1000).final.ctx.Registers.get1 7 = 10#32 ∧
+    (Model.Mvp61.run Proofs.Mvp61Witness.fwdApp (Proofs.Mvp61Witness.ctx0 64) 2 2 1000).halt = some .ret ∧
+    (Model.Mvp61.run Proofs.Mvp61Witness.fwdApp (Proofs.Mvp61Witness.ctx0 64) 2 2 1000).final.forwarded = 2 ∧
+    (Model.Mvp61.run Proofs.Mvp61Witness.fwdApp (Proofs.Mvp61Witness.ctx0 64) 2 2 1000).final.ctx.Registers.get1 6 = 8#32 ∧
+    (Model.Mvp61.run Proofs.Mvp61Witness.fwdApp (Proofs.Mvp61Witness.ctx0 64) 2 2 1000).final.ctx.Registers.get1 7 = 10#32 := by
+  obtain ⟨_, _, a, _⟩ := Proofs.Mvp61Witness.obsSeq_eq Proofs.Mvp61Witness.fwd_seq
+  obtain ⟨_, _, _, _, b, _, c, _⟩ := Proofs.Mvp61Witness.obs_eq Proofs.Mvp61Witness.fwd_p1
+  obtain ⟨d, _, _, _, e, f, g, _⟩ := Proofs.Mvp61Witness.obs_eq Proofs.Mvp61Witness.fwd_p2
+  exact ⟨a, b, c, d, e, f, g⟩
 
 end Props.C12
